@@ -33,6 +33,15 @@ const (
 func (c *Ctx) need(rule, rel, name string) *ssa.Function {
 	fn := c.P.Func(rel, name)
 	if fn == nil || fn.Blocks == nil {
+		// an unexported anchor that was merely renamed: the unique function with its recorded signature
+		if rf, ok := c.P.FuncRenamed(rel, name); ok {
+			c.R.Fn(core.FuncName(rf))
+			c.R.Notes = append(c.R.Notes, "anchor "+rel+"."+name+" resolved by signature as "+core.FuncName(rf)+" (renamed)")
+			c.Anchors = append(c.Anchors, rf)
+			return rf
+		}
+	}
+	if fn == nil || fn.Blocks == nil {
 		c.R.Unk(rule, "anchor "+rel+"."+name, "", "anchor function not found (renamed or removed): the rule cannot be evaluated")
 		return nil
 	}
